@@ -1,6 +1,7 @@
 import Poulpy.Lemmas.HalSpec
 import Poulpy.Lemmas.CoreDetMisc
 import Poulpy.Props.C04
+import Poulpy.Lemmas.CoreDetKs
 import Poulpy.Model.Core.Pack
 import Poulpy.Model.Core.KsMat
 import Poulpy.Model.Core.KsGgsw
@@ -306,6 +307,28 @@ theorem cmux_scratch_determined (big : Bool) (n rb rs : Nat) (t f : List Col) (g
   · unfold cmuxAssign cmuxTail; simp only [Core.epInternal_determined _ g res0 res0' tmp0 tmp0' hd h0 h0' ht ht']
   · unfold cmuxAssignNeg cmuxTail; simp only [Core.epInternal_determined _ g res0 res0' tmp0 tmp0' hd h0 h0' ht ht']
   · unfold cswap; simp only [Core.epInternal_determined _ g res0 res0' tmp0 tmp0' hd h0 h0' ht ht']
+
+/-- `glwe_keyswitch_internal(res_dft, a, key)`: same outcome and, column by column, the same big accumulator whatever
+`res_dft` held (`glwe_keyswitch` zeroes it, the fused automorphisms below do not) -/
+theorem keyswitch_internal_scratch_determined (big : Bool) (d₁ d₂ : Hal.Buf) (a : Ks.Ct) (key : Ks.Key) (hD : 1 ≤ key.dsize)
+    (w1 : d₁.WF) (w2 : d₂.WF) (hs1 : d₁.size = key.mat.size) (hs2 : d₂.size = key.mat.size)
+    (hm1 : d₁.maxSize = key.mat.size) (hm2 : d₂.maxSize = key.mat.size)
+    (hc1 : d₁.cols = key.mat.colsOut) (hc2 : d₂.cols = key.mat.colsOut) (hn1 : d₁.n = a.n) (hn2 : d₂.n = a.n) :
+    ORelK (BufAgree key.mat.colsOut) (Ks.keyswitchInternal big d₁ a key) (Ks.keyswitchInternal big d₂ a key) :=
+  keyswitchInternal_det big d₁ d₂ a key hD w1 w2 hs1 hs2 hm1 hm2 hc1 hc2 hn1 hn2
+
+/-- `glwe_automorphism_{add,sub,sub_negate}` and their `_assign` forms take `res_dft` from scratch **without zeroing
+it**; the result is nevertheless independent of what the scratch held (every admissible digit size) -/
+theorem automorphism_fused_scratch_determined (f : Ks.Fused) (big : Bool) (d₁ d₂ : Hal.Buf) (rb rs rr : Nat) (a : Ks.Ct)
+    (key : Ks.Key) (hD : 1 ≤ key.dsize) (w1 : d₁.WF) (w2 : d₂.WF) (hs1 : d₁.size = key.mat.size) (hs2 : d₂.size = key.mat.size)
+    (hm1 : d₁.maxSize = key.mat.size) (hm2 : d₂.maxSize = key.mat.size)
+    (hc1 : d₁.cols = key.mat.colsOut) (hc2 : d₂.cols = key.mat.colsOut) (hn1 : d₁.n = a.n) (hn2 : d₂.n = a.n)
+    (hpos : 0 < key.mat.colsOut) :
+    Ks.automorphismFused f big d₁ rb rs rr a key = Ks.automorphismFused f big d₂ rb rs rr a key :=
+  automorphismFused_det f big d₁ d₂ rb rs rr a key hD w1 w2 hs1 hs2 hm1 hm2 hc1 hc2 hn1 hn2 hpos
+
+example : Ks.automorphismFused .add false Ks.AccumExample.dirty3 4 1 0 (Ks.mkCt 4 1 [[[3]]]) Ks.AccumExample.exKey3
+    = Ks.automorphismFused .add false (Ks.zeroBuf 1 1 4) 4 1 0 (Ks.mkCt 4 1 [[[3]]]) Ks.AccumExample.exKey3 := by decide
 
 /-- `glwe_tensor_relinearize` takes `res_dft` from scratch without zeroing it -/
 theorem relinearize_scratch_determined (big : Bool) (n rb rs : Nat) (a : List Col) (ab : Nat) (g : GGLWE) (res0 res0' : List Col)
